@@ -656,6 +656,13 @@ func handle(f []string) string {
 		tt, tv := tvParse(a[1], a[2:])
 		raw, out := tvRoundTrip(a[0], tt, tv)
 		return showItem(raw) + " " + tvShow(out)
+	case "col":
+		vals := items(a[1:])
+		enc, out := measure.VerifC11ColumnRoundTrip(vtOf(a[0]), vals)
+		if sameItems(out, vals) {
+			return drv.Hex(enc) + " ="
+		}
+		return drv.Hex(enc) + " NE " + showItems(out)
 	case "bbt":
 		// EncodeBytesBlock + trailing bytes, decoded by a zero-value BytesBlockDecoder.DecodeWithTail
 		tailIn := drv.UnHex(a[0])
